@@ -37,8 +37,8 @@ def signatures(trace_line, verdict, relevant):
     op = op_s.split()
     obs = obs_s.split()
     kind = op[0] if op else "?"
-    if kind == "dec" and len(op) > 1:
-        kind = f"dec:{op[1]}"
+    if kind in ("dec", "strfn") and len(op) > 1:
+        kind = f"{kind}:{op[1]}"
     loc = panic_location(obs)
     tail = f":{loc}" if loc else ""
     if verdict.startswith("FAIL oracle"):
